@@ -1,4 +1,4 @@
-CONSTANTS MCKinds <- AllKinds  Enforce <- NoProps  Configs <- MCConfigs  Requests <- MCRequests  Opcodes <- QuickOps  LenClasses <- QuickLens
+CONSTANTS MCKinds <- AllKinds  Enforce <- NoProps  Configs <- MCConfigs  Requests <- MCRequests  Opcodes <- QuickOps  LenClasses <- QuickLens  DbSlots <- NoDb
 SPECIFICATION Spec
 INVARIANTS TypeOK KeyOnlyAfterSuccess DistAfterCompletion
 CHECK_DEADLOCK FALSE
